@@ -64,6 +64,7 @@ fn main() {
     }));
     let rep = match facet.as_str() {
         "C03" => facets::c03::run(&opts),
+        "C04" => facets::c04::run(&opts),
         other => {
             eprintln!("unknown facet {}", other);
             std::process::exit(2)
